@@ -27,6 +27,7 @@ import (
 	old_faithful_grpc "github.com/rpcpool/yellowstone-faithful/old-faithful-proto/old-faithful-grpc"
 	"github.com/rpcpool/yellowstone-faithful/slottools"
 	solanatxmetaparsers "github.com/rpcpool/yellowstone-faithful/solana-tx-meta-parsers"
+	"github.com/rpcpool/yellowstone-faithful/third_party/solana_proto/confirmed_block"
 	"github.com/rpcpool/yellowstone-faithful/tooling"
 	"golang.org/x/sync/errgroup"
 	"google.golang.org/grpc"
@@ -732,6 +733,31 @@ func (multi *MultiEpoch) StreamTransactions(params *old_faithful_grpc.StreamTran
 	return multi.processSlotTransactions(ctx, ser, startSlot, endSlot, params.Filter, gsfaReader, gsfaReadersLoaded)
 }
 
+// txMentionsAccount reports whether the transaction mentions the account, either among the static
+// account keys of the message or among the addresses loaded from lookup tables (recorded in the
+// metadata). This is the same notion the address index (gsfa) uses, so that the streamed set does
+// not depend on whether that index is loaded.
+func txMentionsAccount(tx *solana.Transaction, meta any, pkey solana.PublicKey) bool {
+	for _, key := range tx.Message.AccountKeys {
+		if key == pkey {
+			return true
+		}
+	}
+	if m, ok := meta.(*confirmed_block.TransactionStatusMeta); ok && m != nil {
+		for _, key := range byteSlicesToKeySlice(m.LoadedReadonlyAddresses) {
+			if key == pkey {
+				return true
+			}
+		}
+		for _, key := range byteSlicesToKeySlice(m.LoadedWritableAddresses) {
+			if key == pkey {
+				return true
+			}
+		}
+	}
+	return false
+}
+
 func (multi *MultiEpoch) processSlotTransactions(
 	ctx context.Context,
 	ser old_faithful_grpc.OldFaithful_StreamTransactionsServer,
@@ -747,27 +773,22 @@ func (multi *MultiEpoch) processSlotTransactions(
 			return true
 		}
 
-		if !(*filter.Vote) && IsSimpleVoteTransaction(&tx) { // If vote is false, we should filter out vote transactions
+		if filter.Vote != nil && !(*filter.Vote) && IsSimpleVoteTransaction(&tx) { // If vote is false, we should filter out vote transactions
 			return false
 		}
 
-		if !(*filter.Failed) { // If failed is false, we should filter out failed transactions
+		if filter.Failed != nil && !(*filter.Failed) { // If failed is false, we should filter out failed transactions
 			err := getErr(meta)
 			if err != nil {
 				return false
 			}
 		}
 
-		if !gsfaReadersLoaded { // Only needed if gsfaReaders not loaded, otherwise handled in the main branch
+		if !gsfaReadersLoaded && len(filter.AccountInclude) > 0 { // Only needed if gsfaReaders not loaded, otherwise handled in the main branch
 			hasOne := false
 			for _, acc := range filter.AccountInclude {
 				pkey := solana.MustPublicKeyFromBase58(acc)
-				ok, err := tx.HasAccount(pkey)
-				if err != nil {
-					klog.V(2).Infof("Failed to check if transaction %v has account %s", tx, acc)
-					return false
-				}
-				if ok {
+				if txMentionsAccount(&tx, meta, pkey) {
 					hasOne = true
 					break // Found at least one included account, no need to check others
 				}
@@ -779,24 +800,14 @@ func (multi *MultiEpoch) processSlotTransactions(
 
 		for _, acc := range filter.AccountExclude {
 			pkey := solana.MustPublicKeyFromBase58(acc)
-			ok, err := tx.HasAccount(pkey)
-			if err != nil {
-				klog.V(2).Infof("Failed to check if transaction %v has account %s", tx, acc)
-				return false
-			}
-			if ok { // If any excluded account is present, filter out the transaction
+			if txMentionsAccount(&tx, meta, pkey) { // If any excluded account is present, filter out the transaction
 				return false
 			}
 		}
 
 		for _, acc := range filter.AccountRequired {
 			pkey := solana.MustPublicKeyFromBase58(acc)
-			ok, err := tx.HasAccount(pkey)
-			if err != nil {
-				klog.V(2).Infof("Failed to check if transaction %v has account %s", tx, acc)
-				return false
-			}
-			if !ok { // If any required account is missing, filter out the transaction
+			if !txMentionsAccount(&tx, meta, pkey) { // If any required account is missing, filter out the transaction
 				return false
 			}
 		}
@@ -816,7 +827,7 @@ func (multi *MultiEpoch) processSlotTransactions(
 			block, err := multi.GetBlock(ctx, &old_faithful_grpc.BlockRequest{Slot: slot})
 			if err != nil {
 				if status.Code(err) == codes.NotFound {
-					return nil
+					continue // skipped slot (or epoch not loaded): keep streaming the rest of the range
 				}
 				return err
 			}
@@ -833,7 +844,7 @@ func (multi *MultiEpoch) processSlotTransactions(
 					return status.Errorf(codes.Internal, "Failed to parse transaction meta: %v", err)
 				}
 
-				if !filterOutTxn(*txn, meta) {
+				if filterOutTxn(*txn, meta) {
 
 					txResp := new(old_faithful_grpc.TransactionResponse)
 					txResp.Transaction = new(old_faithful_grpc.Transaction)
@@ -949,7 +960,7 @@ func (multi *MultiEpoch) processSlotTransactions(
 							return
 						}
 
-						if !filterOutTxn(tx, meta) {
+						if filterOutTxn(tx, meta) {
 							txResp := new(old_faithful_grpc.TransactionResponse)
 							txResp.Transaction = new(old_faithful_grpc.Transaction)
 							{
